@@ -3,7 +3,7 @@
 (* Trace validation for C20.  One trace = a list of records, each the      *)
 (* observation of one worker coming into existence:                        *)
 (*   [mode  : "fake" | "real" | "server",                                  *)
-(*    case  : [master, user, group, init, known]  (abstract case),         *)
+(*    case  : [master, user, group, init, known, cap]  (abstract case),    *)
 (*    uid, gid : configured ids (cfg.uid, cfg.gid), ug : the configured    *)
 (*    user's groups in the group database, known : passwd entry exists,    *)
 (*    m0, m1 : master credentials before / after,                          *)
@@ -45,7 +45,8 @@ PVerdict(e) ==
         ELSE IF e.end = "running" /\ ExactObs(e, e.w) THEN "DropBeforeLoad" ELSE "WorkerCredsExact")
   ELSE IF e.end = "running" /\ ~ExactObs(e, e.w)
   THEN (IF e.eperm THEN "BootErrorNotSilent" ELSE "WorkerCredsExact")
-  ELSE IF e.m0.euid = 0 /\ e.end \in {"bootfail", "masterfail"} THEN "PermittedDropSucceeds"
+  \* (cap # "all": the kernel refuses a privilege call although the master is uid 0 - a capability is missing)
+  ELSE IF e.m0.euid = 0 /\ e.case.cap = "all" /\ e.end \in {"bootfail", "masterfail"} THEN "PermittedDropSucceeds"
   ELSE IF ~SameCreds(e.m0, e.m1) THEN "MasterKeepsIdentity"
   ELSE IF e.end = "running" /\ ~e.beat THEN "HeartbeatWritable"
   ELSE IF Len(e.sock) = 2 /\ e.m0.euid = 0 /\ e.sock # <<e.uid, e.gid>> THEN "SocketOwned"
